@@ -334,6 +334,9 @@ func (e *Engine) execBlock(fr *frame, p *pend, push func(*pend), rets *[]retInfo
 		regs[v] = val
 	}
 	c := e.C
+	if e.C.NumNodes() > e.Opts.MaxNodes {
+		panic(e.unsupported(fmt.Sprintf("term budget exceeded (%d nodes): a loop or path set is too large for the stated bounds", e.C.NumNodes())))
+	}
 	for _, ins := range p.b.Instrs {
 		if st.G.IsFalse() {
 			return
@@ -1232,7 +1235,8 @@ func (e *Engine) divConst(x, y smt.Term, signed bool) (smt.Term, smt.Term, bool)
 		def = c.And(eq, c.Ite(c.Sle(zero, x), pos, neg))
 	} else {
 		qmax := c.BV(mask64(w)/cv, w)
-		def = c.And(eq, c.Ult(r, y), c.Ule(q, qmax))
+		prod := c.Mul(q, y)
+		def = c.And(eq, c.Ult(r, y), c.Ule(q, qmax), c.Uge(c.Add(prod, r), prod))
 	}
 	e.Hints = append(e.Hints, def)
 	e.divCache[key] = [2]smt.Term{q, r}
